@@ -76,6 +76,11 @@ func nativeReplay(path string) (bool, string) {
 		if strings.TrimSpace(l) == want {
 			return true, out
 		}
+		// a type-confused unsafe cast has no assertion of its own natively: any failing
+		// assertion or panic of the real build on these inputs confirms it
+		if rf.AssertID == "memory-safety.unsafe-cast" && strings.HasPrefix(strings.TrimSpace(l), "REPLAY-VIOLATION ") {
+			return true, out
+		}
 	}
 	return false, out
 }
